@@ -653,6 +653,39 @@ theorem fresh_equiv (c fresh : Cache) (hc : Coherent c) (hf : Coherent fresh) (i
   rw [hempty, List.nil_append] at h2
   exact h1.trans h2.symm
 
+theorem foldl_hash_perm (g : Tok × Int → Int) (l1 l2 : List (Tok × Int)) (h : l1.Perm l2) :
+    ∀ a : Int, l1.foldl (fun acc e => acc + g e) a = l2.foldl (fun acc e => acc + g e) a := by
+  induction h with
+  | nil => intro a; rfl
+  | cons x _ ih => intro a; simp only [List.foldl_cons]; exact ih _
+  | swap x y l =>
+    intro a
+    simp only [List.foldl_cons]
+    have : a + g y + g x = a + g x + g y := by omega
+    rw [this]
+  | trans _ _ ih1 ih2 => intro a; rw [ih1, ih2]
+
+/-- the scripted language model only depends on the multiset of exposed key rows -/
+theorem nextTok_perm (vocab eosMod : Nat) (l1 l2 : List (Tok × Int)) (h : l1.Perm l2) :
+    nextTok vocab eosMod l1 = nextTok vocab eosMod l2 := by
+  unfold nextTok
+  rw [foldl_hash_perm (fun e => ((e.1 : Int) + 1) * (31 * e.2 + 17)) l1 l2 h 0]
+
+/-- **Fresh-runner equivalence, token level.**  The token the model produces for a batch position in
+    the cached run equals the token it produces in a fresh runner that processes the whole effective
+    input from position 0 (hypotheses as in `fresh_equiv`). -/
+theorem fresh_equiv_tokens (vocab eosMod : Nat) (c fresh : Cache) (hc : Coherent c) (hf : Coherent fresh) (i : Nat)
+    (hi : i < c.slots.length) (hif : i < fresh.slots.length)
+    (new : List Tok) (loc locf : Nat)
+    (hu : (getSlot c.slots i).inUse = true) (huf : (getSlot fresh.slots i).inUse = true)
+    (hempty : (getSlot fresh.slots i).inputs = [])
+    (hfree : ∀ x ∈ (c.cells.drop loc).take new.length, x.seqs = [])
+    (hfreef : ∀ x ∈ (fresh.cells.drop locf).take ((getSlot c.slots i).inputs ++ new).length, x.seqs = [])
+    (hpos : ((getSlot c.slots i).inputs.length : Int) + new.length < maxI32) (p : Int) :
+    nextTok vocab eosMod (visible (forward c i new loc).cells i p) =
+      nextTok vocab eosMod (visible (forward fresh i ((getSlot c.slots i).inputs ++ new) locf).cells i p) :=
+  nextTok_perm _ _ _ _ (fresh_equiv c fresh hc hf i hi hif new loc locf hu huf hempty hfree hfreef hpos p)
+
 /-! ## finding F3: the pinned failure path of ShiftCacheSlot -/
 
 /-- One slot, context 4, no shiftFn.  A 4-input prompt fills the context; the shift fails
